@@ -3,7 +3,8 @@ import IoraModel.Lemmas.LifecycleCore
 namespace Iora.Lifecycle
 
 theorem Inv.frame {g g' : G} (h : Inv g) (ht : g'.table = g.table) (hn : g'.nextId = g.nextId) (hp : pend g' = pend g)
-    (htr : g'.tr = g.tr) (hc : g'.current = g.current) (he : g'.envBad = g.envBad) (hi : g'.index = g.index) : Inv g' := by
+    (htr : g'.tr = g.tr) (hc : g'.current = g.current) (he : g'.envBad = g.envBad) (hi : g'.index = g.index)
+    (hd : g'.dupAnn = g.dupAnn := by rfl) : Inv g' := by
   have hlv : live g' = live g := by funext sid; simp [live, ht]
   have hl : liveCount g' = liveCount g := by simp [liveCount, hlv, hn]
   constructor
@@ -22,7 +23,8 @@ theorem Inv.frame {g g' : G} (h : Inv g) (ht : g'.table = g.table) (hn : g'.next
   · simpa [hc, hl] using h.gauge
   · simpa [htr, hn] using h.alloc_lt
   · simpa [htr] using h.alloc_sorted
-  · simpa [htr, he] using h.ordered
+  · exact h.ord.ext none (by simp [htr]) (by simp) (fun hx => ⟨by rw [hd] at hx; exact hx, by simp⟩)
+      (fun hx => ⟨by rw [he] at hx; exact hx, by simp⟩) (by rw [ht, htr]; exact h.ord.cann)
   · simpa [hi, ht] using h.idx_live
 
 theorem inv_stale {g : G} (h : Inv g) : Inv { g with stale := true } := h.frame rfl rfl rfl rfl rfl rfl rfl
@@ -83,7 +85,8 @@ theorem Inv.close_step {g g' : G} (h : Inv g) (sid : Sid) (s : Sess) (site : Sit
     (hts : g'.table sid = none ∨ g'.table sid = some { s with closed := true })
     (hn : g'.nextId = g.nextId) (hp : pend g' = pend g) (htr : g'.tr = g.tr ++ [.close sid site])
     (hc : g'.current = g.current - 1) (he : g'.envBad = g.envBad)
-    (hi : ∀ k x, g'.index k = some x → g.index k = some x ∧ ¬(s.pkey = some k ∧ x = sid)) : Inv g' := by
+    (hi : ∀ k x, g'.index k = some x → g.index k = some x ∧ ¬(s.pkey = some k ∧ x = sid))
+    (hd : g'.dupAnn = g.dupAnn := by rfl) : Inv g' := by
   have hcl : sid ∉ closesOf g.tr := fun hm => by have := (h.tbl_cl sid s hs).2 hm; simp [hcf] at this
   have hlt : sid < g.nextId := h.tbl_lt sid s hs
   have hnp : sid ∉ pend g := fun hm => by have := h.pend_tbl sid hm; simp [hs] at this
@@ -150,10 +153,17 @@ theorem Inv.close_step {g g' : G} (h : Inv g) (sid : Sid) (s : Sess) (site : Sit
     rw [hc, h.gauge, this]; simp
   · rw [hal', hn]; exact h.alloc_lt
   · rw [hal']; exact h.alloc_sorted
-  · intro he'
-    rw [he] at he'
-    rw [htr, ordered_snoc]
-    exact ⟨h.ordered he', hcl⟩
+  · refine h.ord.ext (some (.close sid site)) (by simp [htr]) ?_ (fun hx => ⟨by rw [hd] at hx; exact hx, by intro x e; cases e; trivial⟩)
+      (fun hx => ⟨by rw [he] at hx; exact hx, by intro x e; cases e; trivial⟩) ?_
+    · intro x e; cases e; intro y hy; cases hy; exact hcl
+    · refine h.ord.cann_keep (some (.close sid site)) (by simp [htr]) (by intro y e; cases e) ?_
+      intro x s' hx
+      by_cases e : x = sid
+      · subst e
+        rcases hts with hts | hts
+        · rw [hts] at hx; cases hx
+        · rw [hts] at hx; cases hx; exact Or.inl ⟨s, hs, rfl⟩
+      · rw [ht x e] at hx; exact Or.inl ⟨s', hx, rfl⟩
   · intro k x hx
     obtain ⟨hx0, hne⟩ := hi k x hx
     obtain ⟨s', hs', h1, h2, h3⟩ := h.idx_live k x hx0
@@ -182,7 +192,7 @@ theorem inv_closeNow (sid : Sid) (site : Site) {g : G} (h : Inv g) : Inv (closeN
 theorem Inv.fail_step {g g' : G} (h : Inv g) (sid : Sid) (rest : List Sid) (site : Site)
     (hp : pend g = sid :: rest) (hp' : pend g' = rest) (ht : g'.table = g.table) (hn : g'.nextId = g.nextId)
     (htr : g'.tr = g.tr ++ [.close sid site]) (hc : g'.current = g.current) (he : g'.envBad = g.envBad)
-    (hi : g'.index = g.index) : Inv g' := by
+    (hi : g'.index = g.index) (hd : g'.dupAnn = g.dupAnn := by rfl) : Inv g' := by
   have hmem : sid ∈ pend g := by simp [hp]
   have hnd := h.pend_nd
   rw [hp] at hnd
@@ -230,7 +240,11 @@ theorem Inv.fail_step {g g' : G} (h : Inv g) (sid : Sid) (rest : List Sid) (site
   · rw [hc, hl]; exact h.gauge
   · rw [hal', hn]; exact h.alloc_lt
   · rw [hal']; exact h.alloc_sorted
-  · intro he'; rw [he] at he'; rw [htr, ordered_snoc]; exact ⟨h.ordered he', hcl⟩
+  · refine h.ord.ext (some (.close sid site)) (by simp [htr]) ?_ (fun hx => ⟨by rw [hd] at hx; exact hx, by intro x e; cases e; trivial⟩)
+      (fun hx => ⟨by rw [he] at hx; exact hx, by intro x e; cases e; trivial⟩) ?_
+    · intro x e; cases e; intro y hy; cases hy; exact hcl
+    · refine h.ord.cann_keep (some (.close sid site)) (by simp [htr]) (by intro y e; cases e) ?_
+      intro x s' hx; rw [ht] at hx; exact Or.inl ⟨s', hx, rfl⟩
   · rw [hi, ht]; exact h.idx_live
 
 theorem inv_failConnect (site : Site) {g : G} (h : Inv g) : Inv (failConnect site g) := by
@@ -245,9 +259,9 @@ theorem inv_failConnect (site : Site) {g : G} (h : Inv g) : Inv (failConnect sit
 theorem Inv.insert_step {g g' : G} (h : Inv g) (sid : Sid) (rest : List Sid) (s0 : Sess)
     (hp : pend g = sid :: rest) (hp' : pend g' = rest)
     (ht : ∀ x, x ≠ sid → g'.table x = g.table x) (hts : g'.table sid = some s0)
-    (h0c : s0.closed = false) (h0a : s0.announced = false)
+    (h0c : s0.closed = false) (h0a : s0.announced = false) (h0n : s0.connAnnounced = false)
     (hn : g'.nextId = g.nextId) (htr : g'.tr = g.tr) (hc : g'.current = g.current + 1) (he : g'.envBad = g.envBad)
-    (hi : g'.index = g.index) : Inv g' := by
+    (hi : g'.index = g.index) (hd : g'.dupAnn = g.dupAnn := by rfl) : Inv g' := by
   have hmem : sid ∈ pend g := by simp [hp]
   have hnd := h.pend_nd
   rw [hp] at hnd
@@ -305,27 +319,34 @@ theorem Inv.insert_step {g g' : G} (h : Inv g) (sid : Sid) (rest : List Sid) (s0
     rw [hc, h.gauge, this]; simp
   · rw [htr, hn]; exact h.alloc_lt
   · rw [htr]; exact h.alloc_sorted
-  · intro he'; rw [he] at he'; rw [htr]; exact h.ordered he'
+  · refine h.ord.ext none (by simp [htr]) (by simp) (fun hx => ⟨by rw [hd] at hx; exact hx, by simp⟩)
+      (fun hx => ⟨by rw [he] at hx; exact hx, by simp⟩) ?_
+    refine h.ord.cann_keep none (by simp [htr]) (by simp) ?_
+    intro x s' hx
+    by_cases e : x = sid
+    · subst e; rw [hts] at hx; cases hx; exact Or.inr ⟨h0n, h.pend_ann x hmem⟩
+    · rw [ht x e] at hx; exact Or.inl ⟨s', hx, rfl⟩
   · intro k x hx; rw [hi] at hx
     obtain ⟨s', hs', h1, h2, h3⟩ := h.idx_live k x hx
     have e : x ≠ sid := fun e => by subst e; rw [htn] at hs'; cases hs'
     exact ⟨s', by rw [ht x e]; exact hs', h1, h2, h3⟩
 
-theorem inv_insertCur (t : Tls) (k : Option Key) (o : Lid) {g : G} (h : Inv g) : Inv (insertCur t k o g) := by
+theorem inv_insertCur (t : Bool) (k : Option Key) (o : Lid) {g : G} (h : Inv g) : Inv (insertCur t k o g) := by
   unfold insertCur
   split
   · exact inv_stale h
   · rename_i sid hcur
     exact h.insert_step sid (connSids g.batch ++ connSids g.queue)
-      { client := true, connectPending := true, tls := t, pkey := k, owner := o } (by simp [pend, hcur]) (by simp [pend])
-      (by intro x hx; simp [upd, hx]) (by simp [upd]) rfl (by simp [Sess.announced]) rfl rfl rfl rfl rfl
+      { client := true, connectPending := true, tls := if t then .handshake else .none, pkey := k, owner := o } (by simp [pend, hcur]) (by simp [pend])
+      (by intro x hx; simp [upd, hx]) (by simp [upd]) rfl (by simp [Sess.announced]) rfl rfl rfl rfl rfl rfl
 
 /-- a fresh id is allocated on the I/O thread, its session inserted and announced by the accept callback -/
 theorem Inv.accept_step {g g' : G} (h : Inv g) (s0 : Sess)
     (hn : g'.nextId = g.nextId + 1) (hp : pend g' = pend g)
     (ht : ∀ x, x ≠ g.nextId → g'.table x = g.table x) (hts : g'.table g.nextId = some s0)
-    (h0c : s0.closed = false) (h0a : s0.announced = true)
+    (h0c : s0.closed = false) (h0a : s0.announced = true) (h0n : s0.connAnnounced = false)
     (htr : g'.tr = g.tr ++ [.announce g.nextId .accept]) (hc : g'.current = g.current + 1) (he : g'.envBad = g.envBad)
+    (hd : g'.dupAnn = g.dupAnn)
     (hi : ∀ k x, g'.index k = some x → g.index k = some x ∨ (x = g.nextId ∧ s0.pkey = some k)) : Inv g' := by
   have htn : g.table g.nextId = none := h.fresh_tbl
   have hnp : g.nextId ∉ pend g := fun hm => Nat.lt_irrefl _ (h.pend_lt _ hm)
@@ -387,7 +408,15 @@ theorem Inv.accept_step {g g' : G} (h : Inv g) (s0 : Sess)
     · exact hx ▸ Nat.lt_succ_self _
   · rw [hal', List.pairwise_append]
     exact ⟨h.alloc_sorted, by simp, by intro a ha b hb; simp at hb; subst hb; exact h.alloc_lt a ha⟩
-  · intro he'; rw [he] at he'; rw [htr, ordered_snoc]; exact ⟨h.ordered he', hncl⟩
+  · refine h.ord.ext (some (.announce g.nextId .accept)) (by simp [htr]) ?_
+      (fun hx => ⟨by rw [hd] at hx; exact hx, by intro x e; cases e; exact fun hm => hnan (mem_annOf_of_mem hm)⟩)
+      (fun hx => ⟨by rw [he] at hx; exact hx, by intro x e; cases e; trivial⟩) ?_
+    · intro x e; cases e; intro y hy; cases hy; exact hncl
+    · refine h.ord.cann_keep (some (.announce g.nextId .accept)) (by simp [htr]) (by intro y e; cases e) ?_
+      intro x s' hx
+      by_cases e : x = g.nextId
+      · subst e; rw [hts] at hx; cases hx; exact Or.inr ⟨h0n, hnan⟩
+      · rw [ht x e] at hx; exact Or.inl ⟨s', hx, rfl⟩
   · intro k x hx
     rcases hi k x hx with hx0 | ⟨ex, hk⟩
     · obtain ⟨s', hs', h1, h2, h3⟩ := h.idx_live k x hx0
@@ -397,8 +426,8 @@ theorem Inv.accept_step {g g' : G} (h : Inv g) (s0 : Sess)
 
 theorem inv_acceptFresh (t : Tls) (k : Option Key) (o : Lid) {g : G} (h : Inv g) : Inv (acceptFresh t k o g).1 := by
   unfold acceptFresh
-  refine h.accept_step { tls := t, pkey := k, owner := o } rfl (by simp [emit, pend]) ?_ (by simp [emit, upd]) rfl (by simp [Sess.announced])
-    (by simp [emit]) rfl rfl ?_
+  refine h.accept_step { tls := t, pkey := k, owner := o } rfl (by simp [emit, pend]) ?_ (by simp [emit, upd]) rfl (by simp [Sess.announced]) rfl
+    (by simp [emit]) rfl rfl rfl ?_
   · intro x hx; simp [emit, upd, hx]
   · intro k' x hx
     simp only [emit] at hx
@@ -436,7 +465,7 @@ theorem inv_burnId {g : G} (h : Inv g) : Inv (burnId g) := by
     rw [this]; exact h.gauge
   · intro x hx; exact Nat.lt_succ_of_lt (h.alloc_lt x hx)
   · exact h.alloc_sorted
-  · exact h.ordered
+  · exact ⟨h.ord.closed, h.ord.once, h.ord.data, h.ord.cann⟩
   · exact h.idx_live
 
 /-- an entry of the table is replaced by one with the same closed flag, peer key and at least the same announcement;
@@ -447,9 +476,11 @@ theorem Inv.update_step {g g' : G} (h : Inv g) (sid : Sid) (s s' : Sess)
     (hcl : s'.closed = false) (hpk : s'.pkey = s.pkey)
     (hn : g'.nextId = g.nextId) (hp : pend g' = pend g) (hc : g'.current = g.current) (hi : g'.index = g.index)
     (o : Option Out) (htr : g'.tr = g.tr ++ o.toList)
-    (hcase : (o = none ∧ s'.announced = s.announced ∧ g'.envBad = g.envBad) ∨
-             (o = some (.announce sid .connect) ∧ s'.announced = true ∧ g'.envBad = g.envBad) ∨
-             (o = some (.data sid) ∧ s'.announced = s.announced ∧ g'.envBad = (g.envBad || !s.announced))) : Inv g' := by
+    (hcase : (o = none ∧ s'.announced = s.announced ∧ g'.envBad = g.envBad ∧ s'.connAnnounced = s.connAnnounced ∧ g'.dupAnn = g.dupAnn) ∨
+             (o = some (.announce sid .connect) ∧ s'.announced = true ∧ g'.envBad = g.envBad ∧ s'.connAnnounced = true ∧
+                g'.dupAnn = (g.dupAnn || s.connAnnounced)) ∨
+             (o = some (.data sid) ∧ s'.announced = s.announced ∧ g'.envBad = (g.envBad || !s.announced) ∧
+                s'.connAnnounced = s.connAnnounced ∧ g'.dupAnn = g.dupAnn)) : Inv g' := by
   have hncl : sid ∉ closesOf g.tr := fun hm => by have := (h.tbl_cl sid s hs).2 hm; simp [hcf] at this
   have hnp : sid ∉ pend g := fun hm => by have := h.pend_tbl sid hm; simp [hs] at this
   have hcl' : closesOf g'.tr = closesOf g.tr := by
@@ -516,15 +547,53 @@ theorem Inv.update_step {g g' : G} (h : Inv g) (sid : Sid) (s s' : Sess)
   · rw [hc, liveCount_same hn hlv]; exact h.gauge
   · rw [hal', hn]; exact h.alloc_lt
   · rw [hal']; exact h.alloc_sorted
-  · intro he'
-    rcases hcase with ⟨e, _, hb⟩ | ⟨e, _, hb⟩ | ⟨e, _, hb⟩
-    · rw [hb] at he'; simp [htr, e]; exact h.ordered he'
-    · rw [hb] at he'; rw [htr, e]; simp only [Option.toList]; rw [ordered_snoc]; exact ⟨h.ordered he', hncl⟩
-    · rw [hb] at he'
-      have h1 : g.envBad = false := by cases hb1 : g.envBad <;> simp_all
-      have h2 : s.announced = true := by cases hb2 : s.announced <;> simp_all
-      rw [htr, e]; simp only [Option.toList]; rw [ordered_snoc]
-      exact ⟨h.ordered h1, (h.tbl_ann sid s hs).1 h2, hncl⟩
+  · rcases hcase with ⟨e, _, hb, hca, hdd⟩ | ⟨e, _, hb, hca, hdd⟩ | ⟨e, _, hb, hca, hdd⟩
+    · subst e
+      refine h.ord.ext none htr (by simp) (fun hx => ⟨by rw [hdd] at hx; exact hx, by simp⟩)
+        (fun hx => ⟨by rw [hb] at hx; exact hx, by simp⟩) ?_
+      refine h.ord.cann_keep none htr (by simp) ?_
+      intro x s'' hx
+      by_cases ex : x = sid
+      · subst ex; rw [hts] at hx; cases hx; exact Or.inl ⟨s, hs, hca.symm⟩
+      · rw [ht x ex] at hx; exact Or.inl ⟨s'', hx, rfl⟩
+    · subst e
+      have htr' : g'.tr = g.tr ++ [.announce sid .connect] := by simpa using htr
+      refine h.ord.ext (some (.announce sid .connect)) htr ?_ ?_ (fun hx => ⟨by rw [hb] at hx; exact hx, by intro x e; cases e; trivial⟩) ?_
+      · intro x e; cases e; intro y hy; cases hy; exact hncl
+      · intro hx
+        rw [hdd] at hx
+        have h1 : g.dupAnn = false := by cases hb1 : g.dupAnn <;> simp_all
+        have h2 : s.connAnnounced = false := by cases hb2 : s.connAnnounced <;> simp_all
+        refine ⟨h1, ?_⟩
+        intro x e; cases e
+        intro hm
+        have := (h.ord.cann sid s hs).2 hm
+        rw [h2] at this; cases this
+      · intro x s'' hx
+        rw [htr']
+        by_cases ex : x = sid
+        · subst ex; rw [hts] at hx; cases hx; simp [hca]
+        · rw [ht x ex] at hx
+          simp only [List.mem_append, List.mem_singleton]
+          rw [h.ord.cann x s'' hx]
+          constructor
+          · exact Or.inl
+          · rintro (h1 | h1)
+            · exact h1
+            · cases h1; exact absurd rfl ex
+    · subst e
+      refine h.ord.ext (some (.data sid)) htr ?_ (fun hx => ⟨by rw [hdd] at hx; exact hx, by intro x e; cases e; trivial⟩) ?_ ?_
+      · intro x e; cases e; intro y hy; cases hy; exact hncl
+      · intro hx
+        rw [hb] at hx
+        have h1 : g.envBad = false := by cases hb1 : g.envBad <;> simp_all
+        have h2 : s.announced = true := by cases hb2 : s.announced <;> simp_all
+        exact ⟨h1, by intro x e; cases e; exact (h.tbl_ann sid s hs).1 h2⟩
+      · refine h.ord.cann_keep (some (.data sid)) htr (by intro y e; cases e) ?_
+        intro x s'' hx
+        by_cases ex : x = sid
+        · subst ex; rw [hts] at hx; cases hx; exact Or.inl ⟨s, hs, hca.symm⟩
+        · rw [ht x ex] at hx; exact Or.inl ⟨s'', hx, rfl⟩
   · intro k x hx; rw [hi] at hx
     obtain ⟨s'', hs'', h1, h2, h3⟩ := h.idx_live k x hx
     by_cases e : x = sid
@@ -546,10 +615,11 @@ theorem inv_announceConnect (sid : Sid) (c : Bool) {g : G} (h : Inv g) : Inv (an
     · exact inv_stale h
     · rename_i hc
       have hcf : s.closed = false := by cases e : s.closed <;> simp_all
-      refine h.update_step sid s { s with connectPending := false } hs hcf ?_ (by simp [emit, upd]) hcf rfl rfl (by simp [emit, pend]) rfl rfl
+      refine h.update_step sid s { s with connectPending := false, connAnnounced := true, tls := if s.tls = .handshake then .opened else s.tls }
+        hs hcf ?_ (by simp [emit, upd]) hcf rfl rfl (by simp [emit, pend]) rfl rfl
         (some (.announce sid .connect)) (by simp [emit]) ?_
       · intro x hx; simp [emit, upd, hx]
-      · right; left; exact ⟨rfl, by simp [Sess.announced], rfl⟩
+      · right; left; exact ⟨rfl, by simp [Sess.announced], rfl, rfl, rfl⟩
 
 theorem inv_dataCb (sid : Sid) {g : G} (h : Inv g) : Inv (dataCb sid g) := by
   unfold dataCb withLive
@@ -563,20 +633,7 @@ theorem inv_dataCb (sid : Sid) {g : G} (h : Inv g) : Inv (dataCb sid g) := by
       refine h.update_step sid s s hs hcf ?_ (by simp [emit, hs]) hcf rfl rfl (by simp [emit, pend]) rfl rfl
         (some (.data sid)) (by simp [emit]) ?_
       · intro x _; simp [emit]
-      · right; right; exact ⟨rfl, rfl, by simp [emit]⟩
-
-theorem inv_setTls (sid : Sid) (t : Tls) {g : G} (h : Inv g) : Inv (setTls sid t g) := by
-  unfold setTls withLive
-  split
-  · exact inv_stale h
-  · rename_i s hs
-    split
-    · exact inv_stale h
-    · rename_i hc
-      have hcf : s.closed = false := by cases e : s.closed <;> simp_all
-      refine h.update_step sid s { s with tls := t } hs hcf ?_ (by simp [upd]) hcf rfl rfl (by simp [pend]) rfl rfl none (by simp) ?_
-      · intro x hx; simp [upd, hx]
-      · left; exact ⟨rfl, by simp [Sess.announced], rfl⟩
+      · right; right; exact ⟨rfl, rfl, by simp [emit], rfl, rfl⟩
 
 theorem inv_setWq (sid : Sid) (n : Nat) {g : G} (h : Inv g) : Inv (setWq sid n g) := by
   unfold setWq withLive
@@ -589,13 +646,13 @@ theorem inv_setWq (sid : Sid) (n : Nat) {g : G} (h : Inv g) : Inv (setWq sid n g
       have hcf : s.closed = false := by cases e : s.closed <;> simp_all
       refine h.update_step sid s { s with wq := n } hs hcf ?_ (by simp [upd]) hcf rfl rfl (by simp [pend]) rfl rfl none (by simp) ?_
       · intro x hx; simp [upd, hx]
-      · left; exact ⟨rfl, by simp [Sess.announced], rfl⟩
+      · left; exact ⟨rfl, by simp [Sess.announced], rfl, rfl, rfl⟩
 
 /-- only the peer index changes, and every new entry points at a live announced session with that key -/
 theorem Inv.index_step {g g' : G} (h : Inv g) (ht : g'.table = g.table) (hn : g'.nextId = g.nextId) (hp : pend g' = pend g)
     (htr : g'.tr = g.tr) (hc : g'.current = g.current) (he : g'.envBad = g.envBad)
-    (hi : ∀ k sid, g'.index k = some sid → ∃ s, g.table sid = some s ∧ s.closed = false ∧ s.announced = true ∧ s.pkey = some k) :
-    Inv g' := by
+    (hi : ∀ k sid, g'.index k = some sid → ∃ s, g.table sid = some s ∧ s.closed = false ∧ s.announced = true ∧ s.pkey = some k)
+    (hd : g'.dupAnn = g.dupAnn := by rfl) : Inv g' := by
   have h0 : Inv { g with index := g'.index } := by
     have hb := h
     constructor
@@ -615,9 +672,9 @@ theorem Inv.index_step {g g' : G} (h : Inv g) (ht : g'.table = g.table) (hn : g'
       rw [this]; exact hb.gauge
     · exact hb.alloc_lt
     · exact hb.alloc_sorted
-    · exact hb.ordered
+    · exact ⟨hb.ord.closed, hb.ord.once, hb.ord.data, hb.ord.cann⟩
     · exact hi
-  exact h0.frame ht hn (by simpa [pend] using hp) htr hc he rfl
+  exact h0.frame ht hn (by simpa [pend] using hp) htr hc he rfl hd
 
 theorem inv_viaIndex (sid : Sid) (k : Key) {g : G} (h : Inv g) : Inv (viaIndex sid k g) := by
   unfold viaIndex withLive
@@ -654,7 +711,6 @@ instance : Closed0 Inv where
   burnId := fun _ h => inv_burnId h
   announceConnect := fun sid c _ h => inv_announceConnect sid c h
   dataCb := fun sid _ h => inv_dataCb sid h
-  setTls := fun sid t _ h => inv_setTls sid t h
   setWq := fun sid n _ h => inv_setWq sid n h
   viaIndex := fun sid k _ h => inv_viaIndex sid k h
   stale := fun _ h => inv_stale h
